@@ -20,6 +20,26 @@ def load_vetted():
 
 # ---------------------------------------------------------------- SITE
 
+def _same_failure(vetted, s, cfgname):
+    """a vetted panic / unwrap of the same function with the same canonical failure condition"""
+    fn = s['key'].split(':', 2)[1] if s['key'].count(':') >= 2 else None
+    m = re.match(r'^(panic|unwrap):(.*?):(?:[^:]*)$', s['key'])
+    for k, e in vetted.items():
+        if not k.startswith(('panic:', 'unwrap:')) or k == s['key']:
+            continue
+        w = (e.get('when') or {}).get(cfgname)
+        if w and w == s.get('when') and _fn_of(k) == _fn_of(s['key']):
+            return e
+    return None
+
+
+def _fn_of(key):
+    # kind:<function path>:<rest>   (function paths contain '::' but the separators are single ':')
+    body = key.split(':', 1)[1]
+    parts = re.split(r'(?<!:):(?!:)', body)
+    return parts[0]
+
+
 def check_sites(rep, crate, cfgname, vetted, counts):
     n_bodies = 0
     for b in crate.body_list:
@@ -50,6 +70,10 @@ def check_sites(rep, crate, cfgname, vetted, counts):
                             'well-formed -- either way the vetted invariant no longer describes this site')
             elif s['key'] in vetted:
                 rep.ok('SITE', key, s['where'], fact + ' relies on a vetted invariant: ' + vetted[s['key']]['invariant'], fn=b.path)
+            elif s.get('when') and _same_failure(vetted, s, cfgname) is not None:
+                twin = _same_failure(vetted, s, cfgname)
+                rep.ok('SITE', key, s['where'], fact + f' fails under exactly the condition of the vetted site {twin["key"][:120]} of the same function '
+                       f'(e.g. a `panic!()` after an unsuccessful search rewritten as `.expect()` on that search): ' + twin['invariant'], fn=b.path)
             else:
                 pc = ' && '.join(T.show(c) for c in s['pc']) or 'true'
                 what = {'sub': 'raw subtraction that can underflow (debug: panic, release: wrap-around)',
